@@ -44,6 +44,7 @@ static int g_nviol;
 static int g_wall_limit = 60;
 static int g_emit_trace = 0;
 static int g_stop_on_fail = 0, g_failed = 0;
+static int g_slot_guard = 0;
 
 /* ------------------------------------------------------------------ verdict plumbing */
 
@@ -161,7 +162,7 @@ static void world_defaults(void)
     W.nthreads_icv = 16; W.max_active_levels = 1; W.thread_limit = 64;
     W.max_steps = 50000000ULL; W.junk_on = 1; W.junk_seed = 1; W.alloc_fail_at = -1;
     W.clock_epoch = 1700000000; W.clock_step = 0; W.explicit_decisions = 0;
-    g_wall_limit = 60; g_emit_trace = 0; g_hooks_log_on = 0; g_c10_on = 1; g_stop_on_fail = 0;
+    g_wall_limit = 60; g_emit_trace = 0; g_hooks_log_on = 0; g_c10_on = 1; g_stop_on_fail = 0; g_slot_guard = 0;
 }
 
 static void set_world(const char *k, const char *v)
@@ -194,6 +195,7 @@ static void set_world(const char *k, const char *v)
     else if (!strcmp(k, "evlog")) g_hooks_log_on = (int)x;
     else if (!strcmp(k, "c10")) g_c10_on = (int)x;
     else if (!strcmp(k, "stop_on_fail")) g_stop_on_fail = (int)x;
+    else if (!strcmp(k, "slot_guard")) g_slot_guard = (int)x;
     else sim_fatal("HARNESS", "unknown world key %s", k);
 }
 
@@ -202,6 +204,15 @@ static void set_world(const char *k, const char *v)
 #define NSLOT 8
 static struct msa *g_slot[NSLOT];
 static int g_slot_final[NSLOT];
+static int g_slot_failed[NSLOT];
+
+/* slot_guard: a caller that checks return codes only frees an object after a call on it failed */
+static int slot_blocked(int idx, const char *op, int sl)
+{
+    if (!g_slot_guard || sl < 0 || sl >= NSLOT || !g_slot_failed[sl]) return 0;
+    fprintf(g_out, "r %d %s rc=-777 skipped=1\n", idx, op);
+    return 1;
+}
 
 static void enter(void) { simfs_begin_call(); g_sim_active = 1; }
 static void leave(void) { g_sim_active = 0; simfs_end_call(); }
@@ -263,41 +274,50 @@ static void exec_op(int idx, OpLine *o)
         for (int i = 0; i < n; i++) sim_xfree(seqs[i]);
         sim_xfree(seqs); sim_xfree(lens);
     } else if (!strcmp(op, "R")) {
-        int sl = atoi(o->tok[1]); size_t l; char *path = (char *)unhex(o->tok[2], &l); int quiet = atoi(o->tok[3]);
+        int sl = atoi(o->tok[1]);
+        if (slot_blocked(idx, op, sl)) return;
+        size_t l; char *path = (char *)unhex(o->tok[2], &l); int quiet = atoi(o->tok[3]);
         enter();
         int rc = kalign_read_input(l ? path : NULL, &g_slot[sl], quiet);
         leave();
         g_slot_final[sl] = 0;
         fprintf(g_out, "r %d R rc=%d null=%d\n", idx, rc, g_slot[sl] == NULL);
-        if (rc != 0) g_failed = 1;
+        if (rc != 0) { g_failed = 1; g_slot_failed[sl] = 1; }
         sim_xfree(path);
     } else if (!strcmp(op, "X")) {
         int sl = atoi(o->tok[1]);
+        if (slot_blocked(idx, op, sl)) return;
         enter();
         int rc = kalign_run(g_slot[sl], atoi(o->tok[2]), atoi(o->tok[3]), parse_f(o->tok[4]), parse_f(o->tok[5]), parse_f(o->tok[6]));
         leave();
         if (rc == 0) g_slot_final[sl] = 1;
         fprintf(g_out, "r %d X rc=%d\n", idx, rc);
-        if (rc != 0) g_failed = 1;
+        if (rc != 0) { g_failed = 1; g_slot_failed[sl] = 1; }
     } else if (!strcmp(op, "W")) {
-        int sl = atoi(o->tok[1]); size_t l, fl; char *path = (char *)unhex(o->tok[2], &l); char *fmt = (char *)unhex(o->tok[3], &fl);
+        int sl = atoi(o->tok[1]);
+        if (slot_blocked(idx, op, sl)) return;
+        size_t l, fl; char *path = (char *)unhex(o->tok[2], &l); char *fmt = (char *)unhex(o->tok[3], &fl);
         enter();
         int rc = kalign_write_msa(g_slot[sl], l ? path : NULL, fl ? fmt : NULL);
         leave();
         fprintf(g_out, "r %d W rc=%d\n", idx, rc);
-        if (rc != 0) g_failed = 1;
+        if (rc != 0) { g_failed = 1; g_slot_failed[sl] = 1; }
         sim_xfree(path); sim_xfree(fmt);
     } else if (!strcmp(op, "Z")) {
         int sl = atoi(o->tok[1]);
         int rc = -1;
+        if (slot_blocked(idx, op, sl)) return;
         if (g_slot[sl] && g_slot[sl]->aligned == ALN_STATUS_ALIGNED) { enter(); rc = finalise_alignment(g_slot[sl]); leave(); if (rc == 0) g_slot_final[sl] = 1; }
         fprintf(g_out, "r %d Z rc=%d\n", idx, rc);
     } else if (!strcmp(op, "C")) {
         int a = atoi(o->tok[1]), b = atoi(o->tok[2]); float score = -1.0f;
+        if (slot_blocked(idx, op, a) || slot_blocked(idx, op, b)) return;
+        if (g_slot_guard && (!g_slot[a] || !g_slot[b])) { fprintf(g_out, "r %d C rc=-777 skipped=1\n", idx); return; }
         enter();
         int rc = kalign_msa_compare(g_slot[a], g_slot[b], &score);
         leave();
         if (rc == 0) { g_slot_final[a] = 1; g_slot_final[b] = 1; }
+        else { g_slot_failed[a] = 1; g_slot_failed[b] = 1; }
         uint32_t bits; memcpy(&bits, &score, 4);
         fprintf(g_out, "r %d C rc=%d score=%.6f bits=%08x\n", idx, rc, (double)score, bits);
     } else if (!strcmp(op, "F")) {
@@ -305,9 +325,10 @@ static void exec_op(int idx, OpLine *o)
         enter();
         kalign_free_msa(g_slot[sl]);
         leave();
-        g_slot[sl] = NULL; g_slot_final[sl] = 0;
+        g_slot[sl] = NULL; g_slot_final[sl] = 0; g_slot_failed[sl] = 0;
         fprintf(g_out, "r %d F rc=0\n", idx);
     } else if (!strcmp(op, "D")) {
+        if (slot_blocked(idx, op, atoi(o->tok[1]))) return;
         dump_msa(idx, atoi(o->tok[1]));
     } else if (!strcmp(op, "CLI")) {
         int n = atoi(o->tok[1]);
@@ -357,7 +378,7 @@ static void run_plan(void)
             (unsigned long long)g_c10_nodes_checked, (unsigned long long)g_c10_nodes_skipped);
     fprintf(g_out, "done %s %s\n", g_plan_id, g_nviol ? "VIOL" : "OK");
     fflush(g_out);
-    for (int i = 0; i < NSLOT; i++) { g_slot[i] = NULL; g_slot_final[i] = 0; }
+    for (int i = 0; i < NSLOT; i++) { g_slot[i] = NULL; g_slot_final[i] = 0; g_slot_failed[i] = 0; }
     simalloc_forget_all();
     simfs_reset();
     free_ops();
